@@ -2016,7 +2016,11 @@ class Class(Object):
         for base in self.bases:
             base_path = base if isinstance(base, str) else base.canonical_path
             try:
-                resolved_base = self.modules_collection.get_member(base_path)
+                try:
+                    resolved_base = self.modules_collection.get_member(base_path)
+                except KeyError:
+                    # The path can go through an inherited member (`class C(B.Inner)`, with `Inner` inherited by `B`).
+                    resolved_base = self.modules_collection[base_path]
                 if resolved_base.is_alias:
                     resolved_base = resolved_base.final_target
                 if resolved_base is self:
